@@ -260,7 +260,10 @@ def _aero(draw, case):
     case['mach_route'] = draw(st.sampled_from([False, False, True]))
     case['beta'] = draw(st.one_of(st.just(0.), st.builds(lambda x: round(x, 3), gen.fl(-1e4, 1e4)), st.builds(lambda x: round(x, 3), gen.fl(-1e4, 1e4))))
     # any unit system: pressure numbers from 1e-14 to 1e3
-    case['gamma'] = draw(st.sampled_from([-1., 1.])) * draw(gen.logfl(1e-14, 1e3)) if draw(st.booleans()) else 0.
+    case['gamma'] = draw(st.sampled_from([-1., 1.])) * draw(st.one_of(gen.logfl(1e-14, 1e-8), gen.logfl(1e-8, 1e3),
+                                                                      gen.logfl(1e-8, 1e3))) if draw(st.booleans()) else 0.
+    if 0. < abs(case['gamma']) < 1e-8 and draw(st.booleans()):
+        case['beta'] = 0.       # a small pressure number next to no flow term at all: the curvature part is then the whole matrix
     case['gamma_none'] = draw(st.booleans())
     case['prelude_mach'] = None
     if draw(st.integers(0, 2)) == 0:
@@ -292,6 +295,17 @@ def _panel_strategy(draw, tier='quick'):
     case = draw(pkg.panel_case(models=('plate', 'plate_w', 'cpanel'), mmax=5, sub_interval=False, max_plies=2, allow_offset=False))
     draw(_aero(case))
     _restrain_flow_edges(case, draw)
+    if case['model'] == 'cpanel' and draw(st.integers(0, 3)) == 0:
+        # built on purpose: the curvature term alone, in a unit system with small pressure numbers (flow along x, coefficients given
+        # directly, w restrained on the flow edges, no - or a comparably small - flow-derivative term)
+        case['flow'] = 'x'
+        case['mach_route'] = False
+        case['prelude_mach'] = None
+        case['gamma'] = draw(st.sampled_from([-1., 1.])) * draw(gen.logfl(1e-14, 1e-8))
+        case['beta'] = draw(st.sampled_from([0., 0., 1.])) * abs(case['gamma']) * draw(gen.fl(0.1, 10.))
+        f = dict(case['flags'])
+        f['w1tx'] = f['w2tx'] = 0.
+        case['flags'] = f
     case['extra'] = draw(st.sampled_from([0, 0, 6]))
     case['row0'] = draw(st.integers(0, 6))
     return case
